@@ -48,9 +48,9 @@ def gen_burst(rng, idx):
 
 
 def generate(rng, tier):
-    n = dict(quick=120, thorough=3000, search=400)[tier]
+    n = dict(quick=120, thorough=12000, search=400)[tier]
     cases = [gen_case(rng.fork(), i, big=(i % 10 == 0)) for i in range(n)]
-    nb = dict(quick=12, thorough=200, search=40)[tier]
+    nb = dict(quick=12, thorough=800, search=40)[tier]
     return cases + [gen_burst(rng.fork(), n + i) for i in range(nb)]
 
 
